@@ -108,7 +108,8 @@ class Ctx:
             pass
         n = self.cap_counts.get(capkey, 0)
         self.cap_counts[capkey] = n + 1
-        total = sum(self.viol_counts.values())
+        # witnesses of known findings never count towards the early stop of mutation / seeded-change runs
+        total = sum(v for k_, v in self.cap_counts.items() if k_[0] != "known-finding")
         if n < MAX_VIOL_PER_KIND:
             w["variant"] = self.variant
             w["shard"] = self.shard
